@@ -40,7 +40,8 @@ def _case(draw, nmax):
     case = {"kind": kind, "metric": name, "pkind": pk, "nt": nt, "nv": nv, "nq": nq, "X": pts, "Y": Y, "Yv": draw(gen.labels(nv, K, K)), "pre": pre,
             "max_k": draw(st.integers(1, min(3, nt - 1)))}
     case["min_k"] = draw(st.integers(1, case["max_k"]))
-    case["scale"] = draw(st.sampled_from([1.0, 1.0, 1.0, 1e-5, 3e-5, 1e-6]))  # tiny-scale data: arcs around the 1e-5 density threshold
+    case["scale"] = draw(st.sampled_from([1.0, 1.0, 1.0, 1e-5, 3e-5, 1e-6]))
+    case["matrix_off"] = draw(st.integers(0, 4)) == 0  # tiny-scale data: arcs around the 1e-5 density threshold
     if pk == "lattice":
         case["train_dtype"] = draw(st.sampled_from(["float64", "int64", "uint8", "float32"]))
     return case
@@ -91,6 +92,10 @@ def check_case(case):
         kw.update(min_k=case["min_k"], max_k=case["max_k"])
     m = libcall(cls, **kw)
     It = Iq = None
+    if case.get("matrix_off") and not case["pre"] and kind != "knn":
+        # a distance matrix is attached through the public attribute but its use is switched off: both facts must survive save/load
+        m.pre_distances = np.array(ref, dtype=float)
+        m.pre_computed_distance = False
     if case["pre"]:
         # semi: unlabeled rows must follow the labeled rows in the matrix -> order rows as train, validation(=unlabeled), queries;
         # for the other kinds the training rows are presented in a rotated (non-identity) order
@@ -147,6 +152,19 @@ def check_case(case):
             require(repr(T0[k]) == repr(T2[k]), "loaded_state_equals_original:second_save_to_same_path", lambda: "%s/%s: field %s: second model %r, loaded %r" % (kind, name, k, T0[k], T2[k]))
     S0b = snapshot(m)
     S2 = snapshot(fresh)
+    # the loaded object keeps working like the original: re-fitting it on the same data reproduces the original fit
+    if not case.get("matrix_off"):
+        if kind == "sup":
+            libcall(fresh.fit, Xt.copy(), Y.copy(), It)
+        elif kind == "semi":
+            libcall(fresh.fit, Xt.copy(), Y.copy(), Xv.copy(), It)
+        elif kind == "knn":
+            libcall(fresh.fit, Xt.copy(), Y.copy(), Xv.copy(), Yv.copy())
+        else:
+            libcall(fresh.fit, Xt.copy(), Y.copy(), It)
+        S3 = snapshot(fresh)
+        for k in ("cost", "pred", "status", "predicted_label", "root", "cluster_label", "density", "distance", "pre_computed_distance"):
+            require(repr(S0[k]) == repr(S3[k]), "loaded_model_refits_like_original", lambda: "%s/%s: field %s after re-fitting the loaded model %r, original fit %r" % (kind, name, k, S3[k], S0[k]))
     for k in S0b:
         require(repr(S0b[k]) == repr(S2[k]), "loaded_state_equals_original", lambda: "%s/%s: field %s: original %r, loaded %r" % (kind, name, k, S0b[k], S2[k]))
     require(p1 == p0, "save_does_not_alter_original", "predictions changed by save(): %r -> %r" % (p0, p1))
